@@ -34,6 +34,11 @@ func c12Dates() []sm.Date {
 		add(y+1, 1, 3)
 		add(y+1, 1, 4)
 	}
+	// a week 1 that begins in December (Mon 2018-12-31 = 2019-W01) next to week 1 of the year it begins in
+	add(2018, 1, 3)
+	add(2018, 12, 31)
+	add(2019, 1, 2)
+	add(2024, 12, 30)
 	add(2024, 2, 28)
 	add(2024, 2, 29)
 	add(2024, 3, 1)
@@ -88,7 +93,7 @@ func init() {
 	fw.Register(&fw.Check{
 		ID:    "C12",
 		Title: "All evaluation views partition the same total",
-		Rule: "files of 2 (quick: all ordered pairs) and 3 (thorough: all ordered triples) records dated from a 55-date calendar-boundary set (week-year edges of 52/53-week years, leap days, month/quarter/year ends, years 0000/0001/0999/1000/9998/9999), " +
+		Rule: "files of 2 (quick: all ordered pairs) and 3 (thorough: all ordered triples) records dated from a 59-date calendar-boundary set (week-year edges of 52/53-week years, leap days, month/quarter/year ends, years 0000/0001/0999/1000/9998/9999), " +
 			"in file order as enumerated (unsorted, descending and duplicate dates occur); record i carries a total of 2^i minutes (so a row total identifies exactly which records it contains), a should-total and, in a variant, a negative total; " +
 			"x aggregation {day, week, month, quarter, year} x {plain, --fill (span <= 800 days), --diff, --fill --diff} x date filter {none, --since/--until, --period}; plus 40 today/--now documents. " +
 			"A case = (file, report flags); non-trivial = at least one row; distinct by hash(text, flags).",
@@ -533,6 +538,20 @@ func c12Doc(c *fw.Ctx, fam string, idx, n int) {
 					return
 				}
 				c.Outcome("report-" + agg)
+			}
+		}
+		// print --with-totals: per record the total, per entry its value, in file order
+		if len(kept) > 0 && idx%5 == 0 {
+			args := append([]string{"print", "--with-totals", "--no-style", "--no-warn"}, f.args...)
+			r := clidrv.Run(home, clidrv.Opts{Now: fixedNow}, append(args, path)...)
+			cols, bad := printTotalsColumn(r.Stdout)
+			var want []int
+			for _, rec := range kept {
+				want = append(want, rec.total, rec.total)
+			}
+			if r.Panicked || r.Code != 0 || bad != "" || fmt.Sprint(cols) != fmt.Sprint(want) {
+				c.Violation("print-with-totals", c12Case{fam, idx, fw.Txt(text), args}, fmt.Sprintf("`klog %s`: the left column reads %v (unreadable: %q), expected record total and entry value per record: %v\n%s", strings.Join(args, " "), cols, bad, want, r.Stdout))
+				return
 			}
 		}
 		// the grand total equals `klog total` under the same filter
